@@ -4,7 +4,7 @@
    AtLeast.assume, flatten, evaluate_propositions, evaluate).  Spec side: Sem.eval (the
    arithmetic truth function) and Sem.eval_d (same, but a node whose own variable is fixed by the
    interpretation or by its declared bounds takes that fixed value). *)
-Require Import Puan.Base Puan.Plog Puan.Sem Puan.AssumeFacts.
+Require Import Puan.Base Puan.Plog Puan.Sem Puan.AssumeFacts Puan.Errors Puan.ErrorsSpec Puan.Validated.
 Open Scope string_scope.
 
 (* Every entry (id, (lo,hi)) of the dictionary returned for a total interpretation is the
@@ -40,6 +40,16 @@ Theorem C03_evaluate :
 Proof. exact evaluate_point. Qed.
 Print Assumptions C03_evaluate.
 
+(* stated from validation itself: errors() returned nothing (Errors.errors2; C10), outside the
+   hash-collision findings D4 / D12, no leaf refers to a sub-proposition by id *)
+Theorem C03_evaluate_validated :
+  forall (d : interp) (env : ident -> Z) (m : prop),
+    errors2 m = [] -> no_bounds_hash_collision m -> no_value_hash_collision m ->
+    leaves_apart m -> gen_coherent m -> ok_signs m = true -> agrees d env m ->
+    evaluate d m = Some (eval env m, eval env m).
+Proof. intros d env m He Hb Hv Hla Hgc. exact (validated_evaluate m (conj He (conj Hb Hv)) Hla Hgc d env). Qed.
+Print Assumptions C03_evaluate_validated.
+
 (* Non-vacuity: A = All(B = AtMost(1, [x:(-2,3), y]), z) with x=-1, y=1, z=1 and override-free
    total interpretation: hypotheses hold; B's negative sign with a non-zero sum is exercised. *)
 Definition c03_m : prop :=
@@ -49,6 +59,6 @@ Definition c03_env : ident -> Z := fun i => if String.eqb i "x" then -1 else 1.
 Example C03_nonvacuous :
   ok_signs c03_m = true /\ agrees c03_d c03_env c03_m /\ total c03_d c03_m /\ refines c03_d c03_env c03_m /\
   evaluate_propositions c03_d c03_m = [("A", (1, 1)); ("B", (1, 1)); ("x", (-1, -1)); ("y", (1, 1)); ("z", (1, 1))] /\
-  eval c03_env c03_m = 1.
-Proof. cbn. repeat split; try lia; try (right; lia); try discriminate. Qed.
+  eval c03_env c03_m = 1 /\ errors2 c03_m = [].
+Proof. split; [|split; [|split; [|split; [|split; [|split]]]]]; try (vm_compute; reflexivity); cbn; repeat split; try lia; try (right; lia); try discriminate. Qed.
 Print Assumptions C03_nonvacuous.
